@@ -80,7 +80,7 @@ Proof. exact sync_legacy_refuted. Qed.
     what the device emitted, exactly once and in that order. *)
 Definition C05_bridge_relays_exactly_once_per_direction_statement : Prop :=
   forall li hi ei spi lo ho eo spo (sched : list baction),
-    let s := brun (mkBC false false) sched (binit2 (sinit li hi ei spi) (sinit lo ho eo spo)) in
+    let s := brun (mkBC false false) sched (binit2 (sinit li None hi ei spi) (sinit lo None ho eo spo)) in
     bquiet s = true ->
     d_peer (b_in s) = hi ++ ei ++ msgs_of (concat spi)
     /\ d_peer (b_out s) = ho ++ eo ++ msgs_of (concat spo).
@@ -105,7 +105,7 @@ Proof. exact bridge_refuted. Qed.
     instead, held, or still on its way: nothing is relayed twice, nothing vanishes. *)
 Theorem C05_bridge_relays_partial :
   forall q li hi ei spi lo ho eo spo (sched : list baction) (x : msg) (d : dir),
-    let s := brun (mkBC false q) sched (binit2 (sinit li hi ei spi) (sinit lo ho eo spo)) in
+    let s := brun (mkBC false q) sched (binit2 (sinit li None hi ei spi) (sinit lo None ho eo spo)) in
     d_rpc (bside d s) <> BR_Dead
     /\ cnt x (ball d s) = cnt x (match d with DIn => hi ++ ei ++ msgs_of (concat spi)
                                           | DOut => ho ++ eo ++ msgs_of (concat spo) end).
@@ -116,17 +116,17 @@ Proof. exact bridge_conservation. Qed.
     EVERYTHING exactly once and in per-direction order, under every schedule, whatever the
     kind of the messages held. *)
 Theorem C05_bridge_quiet_link :
-  forall li hi spi lo ho spo (sched : list baction),
+  forall li fi hi spi lo fo ho spo (sched : list baction),
     (li = false -> hi = []) -> (lo = false -> ho = []) ->
-    let s := brun (mkBC false true) sched (binit2 (sinit li hi [] spi) (sinit lo ho [] spo)) in
+    let s := brun (mkBC false true) sched (binit2 (sinit li fi hi [] spi) (sinit lo fo ho [] spo)) in
     bdone s = true ->
     QB hi spi (b_in s) /\ QB ho spo (b_out s).
 Proof. exact bridge_quiet_link. Qed.
 
 Theorem C05_bridge_quiet_link_quiescent :
-  forall li hi spi lo ho spo (sched : list baction),
+  forall li fi hi spi lo fo ho spo (sched : list baction),
     (li = false -> hi = []) -> (lo = false -> ho = []) ->
-    let s := brun (mkBC false true) sched (binit2 (sinit li hi [] spi) (sinit lo ho [] spo)) in
+    let s := brun (mkBC false true) sched (binit2 (sinit li fi hi [] spi) (sinit lo fo ho [] spo)) in
     bquiet s = true ->
     d_peer (b_in s) = hi ++ msgs_of (concat spi) /\ d_peer (b_out s) = ho ++ msgs_of (concat spo).
 Proof. exact bridge_quiet_link_quiescent. Qed.
@@ -139,9 +139,9 @@ Proof. exact bridge_legacy_ctor_refuted. Qed.
 
 Example C05_nonvacuous_quiet :
   let s := brun (mkBC false true) nvq_sched
-             (binit2 (sinit true nvq_hi [] [[Some (mkMsg 7 4 false)]]) (sinit true nvq_ho [] [[Some (mkMsg 0 13 true)]])) in
+             (binit2 (sinit true None nvq_hi [] [[Some (mkMsg 7 4 false)]]) (sinit true (Some 3) nvq_ho [] [[Some (mkMsg 0 13 true); Some (mkMsg 3 14 false)]])) in
   bquiet s = true
-  /\ d_peer (b_in s) = nvq_hi ++ [mkMsg 7 4 false] /\ d_peer (b_out s) = nvq_ho ++ [mkMsg 0 13 true].
+  /\ d_peer (b_in s) = nvq_hi ++ [mkMsg 7 4 false] /\ d_peer (b_out s) = nvq_ho ++ [mkMsg 0 13 true; mkMsg 3 14 false].
 Proof. exact nonvacuous_quiet. Qed.
 
 (** Non-vacuity: a locked connector holding nothing receives two packets while unlock() runs;
